@@ -192,10 +192,22 @@ def run_history(req):
                 before = len(log)
                 with warnings.catch_warnings(record=True) as w:
                     warnings.simplefilter("always")
+                    how = op[1] if len(op) > 1 else "extract"
                     try:
-                        st = extract(1)
+                        if how == "outermost":
+                            # extract_outermost() is an extraction too; 1 has no frames, so it ends by raising
+                            try:
+                                stackscope.extract_outermost(1)
+                            except RuntimeError:
+                                pass
+                            st = stackscope.Stack(root=1, frames=[], leaf=1)
+                        elif how == "since":
+                            st = stackscope.extract_since(sys._getframe(), with_contexts=False)
+                            st = stackscope.Stack(root=1, frames=[], leaf=1) if st.error is None and st.frames else st
+                        else:
+                            st = extract(1)
                     except BaseException as ex:
-                        obs.append({"kind": "extract_raised", "exc": repr(ex)})
+                        obs.append({"kind": "extract_raised", "exc": repr(ex), "how": how})
                         break
                 stats["extracts"] += 1
                 got = log[before:]
